@@ -158,6 +158,28 @@ def run_item(item):
         if bad:
             viol("harness:yaml_memo", f"memoised YAML differs from uncached set-up: {bad[:2]}")
     allf = [f for f in env.all_internal_functions().values()]
+    # a caller edits every nested value of an environment it was handed; all set-ups below happen afterwards
+    from _gettsim.policy_environment import set_up_policy_environment as _setup
+
+    def _poison(o):
+        if isinstance(o, dict):
+            for k in list(o):
+                v = o[k]
+                if isinstance(v, dict):
+                    _poison(v)
+                elif isinstance(v, np.ndarray) and v.dtype.kind == "f":
+                    v *= 3.0
+                elif isinstance(v, (int, float)) and not isinstance(v, bool):
+                    o[k] = v * 3 + 1
+
+    for ds_ in (item["days"][0], item["days"][len(item["days"]) // 2]):
+        try:
+            pp, _ = _setup(datetime.date.fromisoformat(ds_))
+            _poison(pp)
+            res["poisoned_environments"] = res.get("poisoned_environments", 0) + 1
+        except Exception:  # noqa: BLE001
+            pass
+    env._ENV.clear()
     for ds in item["days"]:
         d = datetime.date.fromisoformat(ds)
         try:
@@ -248,6 +270,7 @@ def summarize(results, tier, seed):
         consecutive_day_pairs_compared=sum(r["unchanged_pairs"] for r in ok),
         change_days_seen=sum(r["change_days"] for r in ok),
         uncached_setups_compared_with_memo=sum(r["memo_validated"] for r in ok),
+        environments_edited_in_place_before_the_set_ups=sum(r.get("poisoned_environments", 0) for r in ok),
         samples=[dict(days=r["_item"]["days"][:5]) for r in ok[:3]],
     )
     return dict(coverage=cov, violations=viol, inconclusive=inconclusive,
